@@ -31,12 +31,20 @@ func selfSigned(cn, org string) tls.Certificate {
 	return tls.Certificate{Certificate: [][]byte{der}, PrivateKey: key}
 }
 
+// sysTrusted is the cell's system-trusted certificate (HostConf.SysTrustCert), set by the host helper.
+var sysTrusted *tls.Certificate
+
 func intruderTLS(cred string) *tls.Config {
 	switch cred {
 	case "tls-nocert":
 		return &tls.Config{InsecureSkipVerify: true}
 	case "tls-selfsigned":
 		return &tls.Config{InsecureSkipVerify: true, Certificates: []tls.Certificate{selfSigned("intruder", "Evil")}}
+	case "tls-systrusted": // a certificate that the machine's trust store lists, unrelated to the pair's one-time certificates
+		if sysTrusted == nil {
+			return &tls.Config{InsecureSkipVerify: true}
+		}
+		return &tls.Config{InsecureSkipVerify: true, Certificates: []tls.Certificate{*sysTrusted}}
 	case "tls-samename": // same subject / SAN as go-plugin's own certificates, another key
 		return &tls.Config{InsecureSkipVerify: true, Certificates: []tls.Certificate{selfSigned("localhost", "HashiCorp")}}
 	}
